@@ -247,3 +247,69 @@ Proof.
       destruct (aget (mgrs (unref x r)) (l_key l)) as [m|] eqn:Em; auto. destruct (m_ref m =? 0); auto.
       cbn in Hg. rewrite aget_adel in Hg. destruct (l_key l =? k0) eqn:E2; [discriminate|exact Hg].
 Qed.
+
+(* ---------------------------------------------------------------- the collecting halves of the sweepers (every state) *)
+Lemma getl_stored_key x r l : aget (store x) r = Some l -> l_key (getl x r) = l_key l.
+Proof. intros E. unfold getl. rewrite E. reflexivity. Qed.
+
+Lemma J2x_sweep_t_slot K fuel : forall s slot nowv due, J2x K s -> J2x K (fst (sweep_t_slot fuel s slot nowv due)).
+Proof.
+  induction fuel as [|f IH]; intros s slot nowv due H; simpl; [exact H|].
+  destruct (wheel_get (twheel s) slot) as [|r rest]; [exact H|].
+  set (s1 := s <| twheel := aset (twheel s) slot rest |>).
+  assert (H1 : J2x K s1) by (eapply J2x_mgrs_eq; [|exact H]; reflexivity).
+  change (store s1) with (store s). destruct (aget (store s) r) as [l|] eqn:Hr; [|exact H1].
+  assert (Hr1 : aget (store s1) r = Some l) by exact Hr.
+  destruct (negb (l_timeouted (getl s1 r))).
+  - destruct (nowv <? l_tT (getl s1 r))%Z; [|apply IH; exact H1].
+    apply IH. apply J2x_add_timeout. apply J2x_updl. exact H1.
+  - apply IH. rewrite (getl_stored_key s1 r l Hr1). apply (J2x_unref_rm K s1 r l Hr1 H1).
+Qed.
+
+Lemma J2x_sweep_long K items : forall s is_t due, J2x K s -> J2x K (fst (sweep_long s items is_t due)).
+Proof.
+  induction items as [|r rest IH]; intros s is_t due H; simpl; [exact H|].
+  set (s1 := updl s r (fun l => l <| l_long := false |>)).
+  assert (H1 : J2x K s1) by (apply J2x_updl; exact H).
+  destruct (negb (if is_t then l_timeouted (getl s1 r) else l_expried (getl s1 r))); [apply IH; exact H1|].
+  apply IH. destruct (aget (store s1) r) as [l|] eqn:Hr1.
+  - rewrite (getl_stored_key s1 r l Hr1). apply (J2x_unref_rm K s1 r l Hr1 H1).
+  - (* not stored: unref does nothing, the test sees "freed" *)
+    assert (Eu : unref s1 r = s1) by (unfold unref; rewrite Hr1; reflexivity).
+    rewrite Eu, Hr1. apply J2x_remove_mgr. exact H1.
+Qed.
+
+Lemma J2x_collect_timeouts K s t nowv : J2x K s -> J2x K (fst (collect_timeouts s t nowv)).
+Proof.
+  intros H. unfold collect_timeouts.
+  pose proof (J2x_sweep_t_slot K (10 * length (wheel_get (twheel s) (slot_of t)) + 10) s (slot_of t) nowv [] H) as H1.
+  destruct (sweep_t_slot _ s (slot_of t) nowv []) as [s1 due]. cbn [fst] in H1.
+  destruct (aget (tlong s1) (lkey t)) as [items|]; [|exact H1].
+  apply J2x_sweep_long. eapply J2x_mgrs_eq; [|exact H1]. reflexivity.
+Qed.
+
+Lemma J2x_sweep_e_slot K fuel : forall s slot nowv due ev, J2x K s -> J2x K (fst (fst (sweep_e_slot fuel s slot nowv due ev))).
+Proof.
+  induction fuel as [|f IH]; intros s slot nowv due ev H; simpl; [exact H|].
+  destruct (wheel_get (ewheel s) slot) as [|r rest]; [exact H|].
+  set (s1 := s <| ewheel := aset (ewheel s) slot rest |>).
+  assert (H1 : J2x K s1) by (eapply J2x_mgrs_eq; [|exact H]; reflexivity).
+  change (store s1) with (store s). destruct (aget (store s) r) as [l|] eqn:Hr; [|exact H1].
+  assert (Hr1 : aget (store s1) r = Some l) by exact Hr.
+  destruct (negb (l_expried (getl s1 r))).
+  - destruct (nowv <? l_eT (getl s1 r))%Z; [|apply IH; exact H1].
+    destruct (add_expried _ (l_key (getl s1 r)) r) as [s3 aev] eqn:E3. apply IH.
+    eapply J2x_add_expried; [exact E3|]. apply J2x_updl. exact H1.
+  - apply IH. rewrite (getl_stored_key s1 r l Hr1). apply (J2x_unref_rm K s1 r l Hr1 H1).
+Qed.
+
+Lemma J2x_collect_expiries K s t nowv : J2x K s -> J2x K (fst (fst (collect_expiries s t nowv))).
+Proof.
+  intros H. unfold collect_expiries.
+  pose proof (J2x_sweep_e_slot K (10 * length (wheel_get (ewheel s) (slot_of t)) + 10) s (slot_of t) nowv [] [] H) as H1.
+  destruct (sweep_e_slot _ s (slot_of t) nowv [] []) as [[s1 due] ev]. cbn [fst] in H1.
+  destruct (aget (elong s1) (lkey t)) as [items|]; [|exact H1].
+  pose proof (J2x_sweep_long K items (s1 <| elong := adel (elong s1) (lkey t) |>) false due) as H2.
+  destruct (sweep_long _ items false due) as [s2 due2]. cbn [fst] in *. apply H2.
+  eapply J2x_mgrs_eq; [|exact H1]. reflexivity.
+Qed.
